@@ -21,6 +21,12 @@ import SlipVerif.Driver.Util
    t:<k>  a:<k,k,…>         typep / applicable methods of the current instance         reply  as T, A
    G:<g>:<k,k,…>  H:<g>     (add) methods on the listed classes to the persistent generic function g /
                             call it on the current instance                            reply  g / k.k
+   E:<c>:<k=v,…|->          make-instance reporting the initforms it evaluates, sorted:    reply  k/x/v.k/x/v | - | !notready | !badarg
+                            owner class / slot / value of the form
+   J:<i|s>:<k,k,…>          add :after methods on initialize-instance (i) / shared-initialize (s)
+                            specialised on the listed classes                          reply  j
+   N:<c>:<k=v,…|->          make-instance (becomes current) reporting the :after methods run, in the order
+                            they ran: initialize-instance's / shared-initialize's      reply  k.k/k.k | !notready | !badarg
    slots are reported sorted by slot name, `u` = unbound; a leading `?` marks a make-instance whose
    supplied initargs reach one slot through two different names (outcome not fixed by the property),
    a leading `~` one of a class that has a class with default initargs above it (slip does not
@@ -64,6 +70,16 @@ def showInst (i : Inst) : String :=
     | some v => s!"{p.1}={v}"
     | none => s!"{p.1}=u"))
 
+def insertTriple (p : Name × Name × Val) : List (Name × Name × Val) → List (Name × Name × Val)
+  | [] => [p]
+  | q :: r =>
+    if p.1 < q.1 || (p.1 = q.1 && p.2.1 ≤ q.2.1) then p :: q :: r else q :: insertTriple p r
+
+def showEvaluated (l : List (Name × Name × Val)) : String :=
+  let sorted := l.foldr insertTriple []
+  if sorted.isEmpty then "-" else
+  ".".intercalate (sorted.map (fun p => s!"{p.1}/{p.2.1}/{p.2.2}"))
+
 def showNames (l : List Name) : String :=
   if l.isEmpty then "-" else ".".intercalate (l.map toString)
 
@@ -73,6 +89,8 @@ structure Run where
   curReg : Option Nat := none          -- the register the current instance is also held in
   regs : List (Nat × Obj) := []        -- kept instances
   gens : List (Nat × List Name) := []  -- persistent generic functions: classes carrying a method
+  initM : List Name := []              -- classes with an :after method on initialize-instance
+  sharedM : List Name := []            -- classes with an :after method on shared-initialize
   out : List String := []   -- reversed
   bad : Option String := none
 
@@ -127,6 +145,35 @@ def step (r : Run) (tok : String) : Run :=
       | .error .notReady => say { r with cur := none, curReg := none } "!notready"
       | .error .badInitarg => say { r with cur := none, curReg := none } "!badarg"
     | _, _ => fail "make"
+  | ["E", c, args] =>
+    match c.toNat?, parseArgs? args with
+    | some c, some args =>
+      match evaluatedBy r.w.st c args with
+      | some l => say r (showEvaluated l)
+      | none =>
+        match precOf r.w.st c with
+        | none => say r "!notready"
+        | some _ => say r "!badarg"
+    | _, _ => fail "evaluated"
+  | ["J", f, ks] =>
+    match natList? ks with
+    | some ks =>
+      if f = "i" then say { r with initM := r.initM ++ ks } "j"
+      else if f = "s" then say { r with sharedM := r.sharedM ++ ks } "j"
+      else fail "after-method"
+    | none => fail "after-method"
+  | ["N", c, args] =>
+    match c.toNat?, parseArgs? args with
+    | some c, some args =>
+      match makeObj r.w c args with
+      | .ok o =>
+        let tr (ms : List Name) : String := match afterOrder r.w.st c ms with
+          | some l => showNames l
+          | none => "!notready"
+        say { r with cur := some o, curReg := none } (tr r.initM ++ "/" ++ tr r.sharedM)
+      | .error .notReady => say { r with cur := none, curReg := none } "!notready"
+      | .error .badInitarg => say { r with cur := none, curReg := none } "!badarg"
+    | _, _ => fail "make-after"
   | ["K", j] =>
     match j.toNat?, r.cur with
     | some j, some o => say { r with regs := setReg r.regs j o, curReg := some j } "k"
